@@ -2,6 +2,7 @@ package rules
 
 import (
 	"fmt"
+	"sort"
 	"go/ast"
 	"go/token"
 	"go/types"
@@ -900,6 +901,115 @@ func init() {
 			for _, o := range control(c, "RANGEIDX", scanRangeIdx, "(fixEvaluator).Halves") {
 				out = append(out, withProps(o, all...))
 			}
+			return out
+		}})
+}
+
+// ---- ROUNDBITS
+//
+// The number of base-2^w digits of a gadget decomposition has to cover every bit of the modulus: it is
+// ceil(bitlen(q)/w). A count derived from round(log2 q) is one bit short for every prime just above a power of two
+// (log2 q = k + 0.3 rounds to k, bitlen is k+1); when w divides k the top bit of the decomposed value is then never
+// multiplied by a key component and the key switch returns garbage. The rule follows static callees from every
+// function that computes a digit/vector size and rejects a dependence on math.Round(math.Log2(..)).
+func scanRoundBits(c *core.Ctx) []ob {
+	var out []ob
+	type fnInfo struct {
+		pk      *packages.Package
+		fd      *ast.FuncDecl
+		rounds  token.Pos
+		callees []*types.Func
+	}
+	fns := map[*types.Func]*fnInfo{}
+	c.FuncDecls(func(pk *packages.Package, file *ast.File, fd *ast.FuncDecl) {
+		if fd.Body == nil || fileIsTestSupport(c.Program, fd.Pos()) || inExamples(pk) {
+			return
+		}
+		f, _ := pk.TypesInfo.Defs[fd.Name].(*types.Func)
+		if f == nil {
+			return
+		}
+		fi := &fnInfo{pk: pk, fd: fd}
+		info := pk.TypesInfo
+		ast.Inspect(fd.Body, func(x ast.Node) bool {
+			call, ok := x.(*ast.CallExpr)
+			if !ok {
+				return true
+			}
+			if g := calleeFunc(info, call); g != nil {
+				if g.Pkg() != nil && g.Pkg().Path() == "math" && g.Name() == "Round" && len(call.Args) == 1 {
+					if inner, ok := unparen(call.Args[0]).(*ast.CallExpr); ok {
+						if h := calleeFunc(info, inner); h != nil && h.Pkg() != nil && h.Pkg().Path() == "math" && h.Name() == "Log2" {
+							fi.rounds = call.Pos()
+						}
+					}
+				}
+				if g.Pkg() != nil && strings.HasPrefix(g.Pkg().Path(), core.ModPath) {
+					fi.callees = append(fi.callees, funcOrigin(g))
+				}
+			}
+			return true
+		})
+		fns[f] = fi
+	})
+	n := 0
+	var roots []*types.Func
+	for f := range fns {
+		roots = append(roots, f)
+	}
+	sort.Slice(roots, func(i, j int) bool { return roots[i].Pos() < roots[j].Pos() })
+	for _, f := range roots {
+		fi := fns[f]
+		nm := f.Name()
+		if !(strings.Contains(nm, "DecompositionVectorSize") || strings.Contains(nm, "VectorSize") || strings.Contains(nm, "NumDigits")) {
+			continue
+		}
+		n++
+		fkey := core.FuncKey(fi.pk, fi.fd)
+		seen := map[*types.Func]bool{}
+		var path []string
+		var hit string
+		var walk func(g *types.Func, depth int) bool
+		walk = func(g *types.Func, depth int) bool {
+			if seen[g] || depth > 6 {
+				return false
+			}
+			seen[g] = true
+			gi := fns[g]
+			if gi == nil {
+				return false
+			}
+			path = append(path, g.Name())
+			if gi.rounds != token.NoPos {
+				hit = c.Rel(gi.rounds)
+				return true
+			}
+			for _, h := range gi.callees {
+				if walk(h, depth+1) {
+					return true
+				}
+			}
+			path = path[:len(path)-1]
+			return false
+		}
+		key := "ROUNDBITS:" + fkey
+		if walk(f, 0) {
+			out = append(out, violOb("ROUNDBITS", key, hit, fmt.Sprintf("%s derives a digit count from math.Round(math.Log2(q)) (%s, at %s): for a prime just above a power of two this is one bit less than its bit length, and the top bit of the decomposed value is dropped whenever the digit width divides the rounded size", fkey, strings.Join(path, " -> "), hit)))
+		} else {
+			out = append(out, okOb("ROUNDBITS", key, c.Rel(fi.fd.Pos()), "no dependence on a rounded logarithm", true))
+		}
+	}
+	c.Stats["roundbits_funcs"] = n
+	return out
+}
+
+func init() {
+	core.Register(&core.Rule{Name: "ROUNDBITS", Props: []string{"C04", "C14", "C20"},
+		Doc: "no function that computes a decomposition vector size / digit count depends (through static callees) on math.Round(math.Log2(q)): digit counts must cover the bit length of the modulus",
+		Run: func(c *core.Ctx) []ob {
+			out := scanRoundBits(c)
+			out = append(out, core.Floor("ROUNDBITS", nil, "digit-count functions", c.Stats["roundbits_funcs"], 3)...)
+			out = append(out, control(c, "ROUNDBITS", scanRoundBits, "digitsVectorSize")...)
 			return out
 		}})
 }
